@@ -26,7 +26,7 @@ pub fn supports(bits: usize, flavour: u32) -> bool {
         2 => matches!(bits, 128 | 256 | 512),
         3 => matches!(bits, 128 | 160 | 256 | 512),
         4 => bits > 0,
-        5 => matches!(bits, 64 | 128 | 256 | 320 | 384 | 448 | 768),
+        5 => matches!(bits, 64 | 128 | 256 | 320 | 384 | 448 | 768 | 832),
         _ => bits == 256,
     }
 }
@@ -141,6 +141,7 @@ pub fn encode<const B: usize, const L: usize>(ws: &mut WriteSeam, p: &Plan, vals
                 320 => both(ws, BigInteger320::from(num::to_uint::<320, 5>(v)).0.to_vec(), BigInteger320::from(&num::to_uint::<320, 5>(v)).0.to_vec()),
                 384 => both(ws, BigInteger384::from(num::to_uint::<384, 6>(v)).0.to_vec(), BigInteger384::from(&num::to_uint::<384, 6>(v)).0.to_vec()),
                 448 => both(ws, BigInteger448::from(num::to_uint::<448, 7>(v)).0.to_vec(), BigInteger448::from(&num::to_uint::<448, 7>(v)).0.to_vec()),
+                832 => both(ws, BigInteger832::from(num::to_uint::<832, 13>(v)).0.to_vec(), BigInteger832::from(&num::to_uint::<832, 13>(v)).0.to_vec()),
                 _ => both(ws, BigInteger768::from(num::to_uint::<768, 12>(v)).0.to_vec(), BigInteger768::from(&num::to_uint::<768, 12>(v)).0.to_vec()),
             }
         }
@@ -278,6 +279,14 @@ pub fn decode<const B: usize, const L: usize>(rs: &mut ReadSeam, p: &Plan) -> De
                         rs.ctx.violate("LIE", "From<BigInteger> and From<&BigInteger> disagree");
                     }
                     rs.ctx.observe("From<BigInteger448>", &u)
+                },
+                832 => {
+                    let big = BigInteger832(num_to_limbs(&mag).ok_or_else(bad)?);
+                    let u = <Uint<832, 13> as From<_>>::from(big);
+                    if <Uint<832, 13> as From<&BigInteger832>>::from(&big) != u {
+                        rs.ctx.violate("LIE", "From<BigInteger> and From<&BigInteger> disagree");
+                    }
+                    rs.ctx.observe("From<BigInteger832>", &u)
                 },
                 _ => {
                     let big = BigInteger768(num_to_limbs(&mag).ok_or_else(bad)?);
